@@ -200,7 +200,7 @@ CallCancel(a) ==
 \* stray commands through the public handle: duplicate schedule, run / consts /
 \* validate that the protocol does not expect now, an MPC message with a
 \* sender index out of range ("MsgBad")
-StrayKinds == {"Schedule", "Run", "Consts", "Validate", "MsgBad", "MsgEarly", "RunEarly", "ConstsBad"}
+StrayKinds == {"Schedule", "Run", "Consts", "Validate", "MsgBad", "MsgEarly", "RunEarly", "ConstsBad", "MsgSelf"}
 NotYetValidated(a) == kind[a] \in {"Init", "AwaitingValidation", "ValidateRequested"}
 ActorQuiet(a) == hpc[a].pc = "idle" /\ cmdq[a] = << >>
 StrayAllowed(a, t) ==
@@ -213,6 +213,7 @@ StrayAllowed(a, t) ==
     [] t = "MsgBad" -> TRUE                                  \* sender index >= number of participants
     [] t = "ConstsBad" -> TRUE                               \* constants from an index >= number of participants
     [] t = "MsgEarly" -> sched[a] = "none"                   \* in-range sender, before scheduling
+    [] t = "MsgSelf" -> TRUE                                 \* the party's own index as sender: nobody sends to itself
     \* a run request that reaches the leader while it is still inside its schedule step (a retried or misrouted
     \* request): it waits in the queue and is handled once the policy is validated -- as a valid run; the run
     \* command the leader then sends to itself arrives in a state it is invalid for and must change nothing
@@ -379,7 +380,7 @@ Handle(s, a, cmd) ==
     [] cmd.t = "ICS" -> HIcs(s, a)
     [] cmd.t = "Stop" -> Break(s, a)
     [] cmd.t = "Cancel" -> HCancel(s, a, cmd)
-    [] cmd.t \in {"MsgBad", "MsgEarly"} -> HMsgBad(s, a, cmd)
+    [] cmd.t \in {"MsgBad", "MsgEarly", "MsgSelf"} -> HMsgBad(s, a, cmd)
 
 \* gate "cmd": the actor handles the command at the head of its queue
 CmdGate(a) == Alive(St, a) /\ hpc[a].pc = "idle" /\ cmdq[a] # << >>
